@@ -176,7 +176,7 @@ pub fn strong_50(mb: u64) -> bool {
     }
     let nz = g(mb, 3, 11) != 0 && g(mb, 14, 23) != 0 && g(mb, 25, 34) != 0 && g(mb, 37, 45) != 0 && g(mb, 47, 56) != 0;
     let v = dec_50(mb);
-    nz && v.roll_exact.abs() <= 50.0 - 1.0 // keep clear of the boundary: statement says |roll|<=50
+    nz && v.roll_exact.abs() <= 50.0
         && v.gs <= 600
         && v.tas <= 500
         && (v.gs as i64 - v.tas as i64).abs() < 200
@@ -239,7 +239,7 @@ pub fn strong_60(mb: u64) -> bool {
     }
     let nz = g(mb, 3, 12) != 0 && g(mb, 14, 23) != 0 && g(mb, 25, 34) != 0 && g(mb, 37, 45) != 0 && g(mb, 48, 56) != 0;
     let v = dec_60(mb);
-    nz && v.mach <= 1.0 && v.baro_rate.abs() <= 6000 && v.inertial_rate.abs() <= 6000
+    nz && g(mb, 25, 34) <= 250 && v.baro_rate.abs() <= 6000 && v.inertial_rate.abs() <= 6000
 }
 
 /// Which of the value-carrying registers could this MB field be under the *weak* (necessary)
